@@ -1071,11 +1071,39 @@ func (e *Env) specCall(sf *SpecFn, n *CNode) Val {
 	s := e.sub()
 	s.depth = e.depth + 1
 	// evaluate args in caller env, bind by name (shadowing everything)
+	// long argument terms are bound with an SMT let, so that nested specification functions do not multiply the text
+	// of their arguments (srcDB(e, id) used five times inside a key function, which is used inside a quantifier, ...)
+	type letb struct{ name, term string }
+	var lets []letb
 	for i, p := range sf.Params {
-		s.bound[p] = e.expr(n.Args[i])
+		v := e.expr(n.Args[i])
+		if len(v.t) > 60 && v.tuple == nil && v.cell == nil {
+			specLetCounter++
+			nm := fmt.Sprintf("|a!%d|", specLetCounter)
+			lets = append(lets, letb{nm, v.t})
+			v.t = nm
+		}
+		s.bound[p] = v
 	}
-	return s.expr(sf.Body)
+	r := s.expr(sf.Body)
+	if len(lets) > 0 {
+		if r.tuple != nil {
+			// (not expected: specification functions return scalars) - fall back to plain substitution
+			for i, p := range sf.Params {
+				s.bound[p] = e.expr(n.Args[i])
+			}
+			return s.expr(sf.Body)
+		}
+		var bs []string
+		for _, l := range lets {
+			bs = append(bs, "("+l.name+" "+l.term+")")
+		}
+		r.t = "(let (" + strings.Join(bs, " ") + ") " + r.t + ")"
+	}
+	return r
 }
+
+var specLetCounter int
 
 func (e *Env) theVisKey() string {
 	if e.visKey != "" {
